@@ -1,4 +1,5 @@
 import Tickit.Proof.EvLoopWF
+import Tickit.Proof.EvLoopOnceB
 import Tickit.Gen.EvLoop
 /-
   C17 — Timers and deferred callbacks run once, on time, in order, unless cancelled.
@@ -16,6 +17,11 @@ import Tickit.Gen.EvLoop
   `never_early_shipped`/`never_early`, `order_shipped`/`order`, `cancel_exact`, `destroy_notifies_list`.
   Proved for the repaired timer loop: `no_due_timer_left`, `cancelled_never_runs`,
   `registered_in_callback_runs_in_order`.
+  Proved for the repaired source, across the iterations of every history (Proof/EvLoopOnce*.lean):
+  `invocation_count_is_per_watch`, `exactly_once` — the harness's per-slot count of FIRE invocations
+  (`SlotRec.fires`, incremented by `fireUser` together with the log entry) is at most 1 for a timer / deferred
+  callback, 0 while the watch is allocated — and then it is still queued —, and 1 once it is gone from a live
+  instance without a cancel having been asked for (`St.cancelReq`, a ghost the model's `doCancel` keeps).
   Defects of the shipped tree: the `*_counterexample` theorems (kernel-checked runs of the model on the
   minimal histories of corpus/C17; the same histories are replayed against the real library on
   every check).  Statements not proved: the `def … : Prop` at the end (listed in engines.d/C17.json).
@@ -123,10 +129,11 @@ example : ((timerLoopPopT 10 (runOps .repaired [.beh ⟨0, 0, [.timerAt 1 999 0 
 /-! ### deferred callbacks -/
 
 /-- The batch of deferred callbacks queued when the iteration began (`later = t->laters; t->laters = NULL`):
-    when the loop over it returns normally every one of them has been invoked exactly once, in queue
-    order (each with FIRE|UNBIND: `laterCb`), whatever they and the timers before them did. -/
-theorem deferred_batch_runs_once_in_order (l : List Nat) (st : St) (hok : (laterLoopT st l).1.status = .ok) :
-    (laterLoopT st l).2 = l := laterLoopT_all l st hok
+    the loop over it invokes its members at most once each, in queue order (each with FIRE|UNBIND: `laterCb`),
+    whatever they and the timers before them did — either variant of the source.  (Which members: with the
+    repaired cancel, those not cancelled meanwhile — `cancelled_later_never_runs_repaired`; as shipped, all of them —
+    `later_cancel_detached_counterexample`; that none is lost across iterations: `exactly_once`.) -/
+theorem deferred_batch_runs_once_in_order (l : List Nat) (st : St) : (laterLoopT st l).2.Sublist l := laterLoopT_sub l st
 
 example : (laterLoopT { runOps .shipped [.act (.later 0 0), .act (.later 1 1), .act (.later 2 0)] with laters := [] } [3, 2, 4]).2
     = [3, 2, 4] := by decide +kernel
@@ -230,20 +237,49 @@ theorem timer_past_dropped_repaired :
 def probeLaterCancel : List Op :=
   [.beh ⟨0, 0, [.cancel 1]⟩, .act (.later 0 0), .act (.later 1 2), .tick]
 
-/-- A deferred callback cancelled by an earlier one of the same batch: no UNBIND notification, and it
-    still runs (both variants of the source: no repair is proposed). -/
-theorem later_cancel_detached_counterexample (cfg : Config) (h : cfg = .shipped ∨ cfg = .repaired) :
-    (runOps cfg probeLaterCancel).log.reverse =
-      [.poll (some 0) [(-1, 1)] (some 0), .cb 0 3 .none, .a, .cb 1 3 .none] := by
-  cases h with
-  | inl h => subst h; decide +kernel
-  | inr h => subst h; decide +kernel
+/-- A deferred callback cancelled by an earlier one of the same batch, as shipped: no UNBIND notification, and it
+    still runs. -/
+theorem later_cancel_detached_counterexample :
+    (runOps .shipped probeLaterCancel).log.reverse =
+      [.poll (some 0) [(-1, 1)] (some 0), .cb 0 3 .none, .a, .cb 1 3 .none] := by decide +kernel
+
+/-- Repaired (`tickit_watch_cancel` marks an entry of the detached batch, the loop skips marked entries): the
+    cancelled callback gets the UNBIND notification it asked for, at once, and never runs; nothing is leaked. -/
+theorem cancelled_later_never_runs_repaired :
+    (runOps .repaired probeLaterCancel).log.reverse =
+      [.poll (some 0) [(-1, 1)] (some 0), .cb 0 3 .none, .a, .cb 1 2 .none] ∧
+    leaked (runOps .repaired probeLaterCancel) = [] ∧
+    ((runOps .repaired probeLaterCancel).slots.map (·.fires)) = [1, 0] := by decide +kernel
+
+/-- … also when a due timer cancels it (the batch is detached before the timers run), and a deferred callback
+    that cancels itself from its own callback is not notified a second time. -/
+theorem cancelled_later_by_timer_repaired :
+    (runOps .repaired [.beh ⟨0, 0, [.cancel 1]⟩, .beh ⟨2, 0, [.cancel 2]⟩, .act (.timer 0 0 0), .act (.later 1 6), .act (.later 2 2),
+      .tick]).log.reverse =
+      [.poll (some 0) [(-1, 1)] (some 0), .g, .cb 0 3 .none, .a, .cb 1 2 .none, .cb 2 3 .none, .a] := by decide +kernel
+
+def cbLogOf (st : St) : List Ev := st.log.reverse.filter fun e => match e with | .cb .. => true | _ => false
 
 def probePreExited : List Op := [.act (.exit 1000000000 0), .act (.process 0 1000000000 6), .destroy]
 
 /-- A watch on a child that has already exited is linked nowhere: no notification at destruction, leaked. -/
 theorem process_preexited_counterexample :
     (runOps .shipped probePreExited).log = [] ∧ leaked (runOps .shipped probePreExited) = [2] := by decide +kernel
+
+/-- Repaired (`tickit_watch_process` links the watch and remembers its deferred callback in `process.notify`):
+    destruction notifies it, nothing is leaked … -/
+theorem process_preexited_repaired :
+    (runOps .repaired probePreExited).log = [.cb 0 6 .none] ∧ leaked (runOps .repaired probePreExited) = [] := by decide +kernel
+
+/-- … it fires once, from the next iteration, and is released; and a cancel before that takes effect: the UNBIND
+    notification it asked for, no invocation, nothing leaked. -/
+theorem process_preexited_cancel_repaired :
+    cbLogOf (runOps .repaired [.act (.exit 1000000000 7), .act (.process 0 1000000000 6), .tick]) = [.cb 0 1 (.proc 1000000000 7)] ∧
+    leaked (runOps .repaired [.act (.exit 1000000000 7), .act (.process 0 1000000000 6), .tick]) = [] ∧
+    (runOps .repaired [.act (.exit 1000000000 7), .act (.process 0 1000000000 6), .act (.cancel 0)]).log = [.cb 0 2 .none] ∧
+    cbLogOf (runOps .repaired [.act (.exit 1000000000 7), .act (.process 0 1000000000 6), .act (.cancel 0), .tick]) = [] ∧
+    leaked (runOps .repaired [.act (.exit 1000000000 7), .act (.process 0 1000000000 6), .act (.cancel 0), .tick]) = [] := by
+  decide +kernel
 
 def probeSigchldNext : List Op :=
   [.beh ⟨0, 0, [.cancel 1]⟩, .act (.process 0 1000000000 0), .act (.process 1 1000000001 0),
@@ -254,16 +290,68 @@ theorem sigchld_next_cancelled_counterexample : (runOps .shipped probeSigchldNex
   decide +kernel
 theorem sigchld_next_cancelled_repaired : (runOps .repaired probeSigchldNext).status = .ok := by decide +kernel
 
-/-! ### statements of the property that are not proved (engines.d/C17.json: open_statements) -/
+/-! ### exactly once, across the iterations of a history -/
 
-/-- Exactly once, end to end: in every history of valid usage under the repaired source, every timer
-    and deferred callback that is registered and not cancelled is invoked exactly once (with
-    FIRE|UNBIND) by the first iteration that finds it due. -/
-def exactly_once_full : Prop :=
-  ∀ (ops : List Op), (runOps .repaired ops).status = .ok →
-    ∀ a, a < (runOps .repaired ops).heap.length →
-      ((runOps .repaired ops).getW a).type = .timer ∨ ((runOps .repaired ops).getW a).type = .later →
-      (runOps .repaired ops).live a = true → a ∈ (runOps .repaired ops).timers ∨ a ∈ (runOps .repaired ops).laters
+theorem repaired_is_rep : Rep Config.repaired := ⟨rfl, rfl, rfl, rfl⟩
+
+/-- The count the harness keeps for watch slot `k` is the count of FIRE invocations of one watch: every watch
+    with a slot number has its record, slot numbers are not shared, and the record's handle is the watch that
+    carries its number (`fireUser st k …`, the only place that logs a FIRE entry `cb:k:…` and the only place
+    that increments `fires`, increments the records whose number is `k`). -/
+theorem invocation_count_is_per_watch (ops : List Op) (hok : (runOps .repaired ops).status = .ok) :
+    (∀ a, a < (runOps .repaired ops).heap.length → ((runOps .repaired ops).getW a).slot ≥ 0 →
+        ∃ r ∈ (runOps .repaired ops).slots, r.k = ((runOps .repaired ops).getW a).slot ∧ r.handle = a) ∧
+    ((runOps .repaired ops).slots.map (·.k)).Nodup ∧
+    (∀ r ∈ (runOps .repaired ops).slots, r.handle < (runOps .repaired ops).heap.length ∧
+        ((runOps .repaired ops).getW r.handle).slot = r.k) :=
+  ⟨(b_runOps _ repaired_is_rep ops hok).k.s1, (b_runOps _ repaired_is_rep ops hok).k.s2, (b_runOps _ repaired_is_rep ops hok).k.s3⟩
+
+/-- Exactly once.  In every state a history of valid usage reaches under the repaired source, for every timer
+    and every deferred callback the harness registered (record `r`, watch `r.handle`):
+    * it has been invoked at most once, over all iterations so far — whatever was registered, cancelled or
+      invoked in between, from outside or from inside callbacks;
+    * while it is allocated it has not been invoked, and (in a live instance) it is still in its queue, where
+      the next iteration that finds it due (`no_due_timer_left`) or the next iteration at all
+      (`deferred_batch_runs_once_in_order`) takes it;
+    * once it is gone from a live instance and no cancel was ever asked for it, it has been invoked exactly once.
+    (A deferred callback cancelled while its batch is detached still runs: `later_cancel_detached_counterexample`.) -/
+theorem exactly_once (ops : List Op) (hok : (runOps .repaired ops).status = .ok) :
+    ∀ r ∈ (runOps .repaired ops).slots, isOneShot ((runOps .repaired ops).getW r.handle).type = true →
+      r.fires ≤ 1 ∧
+      ((runOps .repaired ops).live r.handle = true → r.fires = 0) ∧
+      ((runOps .repaired ops).alive = true → (runOps .repaired ops).live r.handle = true →
+        (((runOps .repaired ops).getW r.handle).type = .timer → r.handle ∈ (runOps .repaired ops).timers) ∧
+        (((runOps .repaired ops).getW r.handle).type = .later → r.handle ∈ (runOps .repaired ops).laters)) ∧
+      ((runOps .repaired ops).alive = true → r.k ∉ (runOps .repaired ops).cancelReq →
+        (runOps .repaired ops).live r.handle = false → r.fires = 1) := by
+  intro r hr ho
+  have b := b_runOps _ repaired_is_rep ops hok
+  have hok' := (St.isOk_iff _).mpr hok
+  obtain ⟨o1, o2, _⟩ := b.o r hr ho
+  refine ⟨o1, fun hl => o2 hok' hl (fun h => by cases h), ?_, fun hal hnc hd => b.g hal r hr ho hnc hd⟩
+  intro hal hl
+  obtain ⟨l1, l2⟩ := b.li hok' hal r.handle (b.k.s3 r hr).1 hl
+  exact ⟨fun ht => (l1 ht).elim id (fun h => by cases h), fun ht => (l2 ht).elim id (fun h => by cases h)⟩
+
+/-- No timer or deferred callback of a live instance is lost: as long as it is allocated it is in its queue
+    (internal ones — `process_notify` — included). -/
+theorem no_watch_lost (ops : List Op) (hok : (runOps .repaired ops).status = .ok) (hal : (runOps .repaired ops).alive = true) :
+    ∀ a, a < (runOps .repaired ops).heap.length → (runOps .repaired ops).live a = true →
+      (((runOps .repaired ops).getW a).type = .timer → a ∈ (runOps .repaired ops).timers) ∧
+      (((runOps .repaired ops).getW a).type = .later → a ∈ (runOps .repaired ops).laters) := by
+  intro a ha hl
+  obtain ⟨l1, l2⟩ := (b_runOps _ repaired_is_rep ops hok).li ((St.isOk_iff _).mpr hok) hal a ha hl
+  exact ⟨fun ht => (l1 ht).elim id (fun h => by cases h), fun ht => (l2 ht).elim id (fun h => by cases h)⟩
+
+/-- Three timers and a deferred callback over four iterations, one timer registered from a callback with a
+    deadline in the past, one cancelled: the counts. -/
+example : ((runOps .repaired [.beh ⟨0, 0, [.timerAt 3 999 0 0, .cancel 2]⟩, .act (.timer 0 0 0), .act (.timer 1 5 0), .act (.timer 2 7 0),
+      .act (.later 4 0), .tick, .tick, .clock 5000, .tick, .tick]).slots.map (fun r => (r.k, r.fires))) =
+    [(0, 1), (1, 1), (2, 0), (4, 1), (3, 1)] ∧
+    (runOps .repaired [.beh ⟨0, 0, [.timerAt 3 999 0 0, .cancel 2]⟩, .act (.timer 0 0 0), .act (.timer 1 5 0), .act (.timer 2 7 0),
+      .act (.later 4 0), .tick, .tick, .clock 5000, .tick, .tick]).cancelReq = [2] := by decide +kernel
+
+/-! ### statements of the property that are not proved (engines.d/C17.json: open_statements) -/
 
 /-- No undefined behaviour on valid usage under the repaired source (three use-after-free remain in the
     shipped tree *and* after the proposed patches: see known/C17.json, known/C18.json). -/
